@@ -1,0 +1,31 @@
+//go:build verif
+
+package hotline
+
+import (
+	"context"
+	"io"
+)
+
+// Exported entry points for the verification harness in /verif (build tag "verif" only).
+
+func (s *Server) VerifHandleNewConnection(ctx context.Context, rwc io.ReadWriteCloser, remoteAddr string) error {
+	return s.handleNewConnection(ctx, rwc, remoteAddr)
+}
+
+func (s *Server) VerifHandleFileTransfer(ctx context.Context, rwc io.ReadWriter) error {
+	return s.handleFileTransfer(ctx, rwc)
+}
+
+func (s *Server) VerifProcessOutbox() { s.processOutbox() }
+
+func (s *Server) VerifOutbox() chan Transaction { return s.outbox }
+
+func (s *Server) VerifSendTransaction(t Transaction) error { return s.sendTransaction(t) }
+
+// VerifRequestCtx returns a context carrying the request value handleFileTransfer expects.
+func VerifRequestCtx(ctx context.Context, remoteAddr string) context.Context {
+	return context.WithValue(ctx, contextKeyReq, requestCtx{remoteAddr: remoteAddr})
+}
+
+func VerifPerformHandshake(rw io.ReadWriter) error { return performHandshake(rw) }
